@@ -73,6 +73,7 @@ type caseIn struct {
 	TTLms    int     `json:"ttl_ms"`
 	UnitMs   int     `json:"unit_ms"`
 	MarginMs int     `json:"margin_ms"`
+	Virtual  bool    `json:"virtual"` // redis-backed backends only: Tick advances miniredis' clock without sleeping (lifetimes of seconds)
 	Nodes    int     `json:"nodes"`
 	Clients  []int   `json:"clients"`
 	Ops      [][]int `json:"ops"`
@@ -195,6 +196,7 @@ type world struct {
 	cloud  []*managers.BuiltinCloudControl    // per node: the real cloud control over the node's storage
 	states []*repos.ClientStateRepository     // per node: reader of the shared runtime-state record
 	ttl    time.Duration
+	shared *memory.Storage // the ONE shared cache of the tiered in-memory configurations
 }
 
 func nodeName(n int) string { return fmt.Sprintf("node-%d", n) }
@@ -215,7 +217,7 @@ func connNum(s string) int {
 }
 
 func ptrShape(backend string) bool {
-	return backend == "memory" || backend == "hybrid-mem" || backend == "hybrid-shared-mem" || backend == "hybrid-persist"
+	return backend == "hybrid-gated-shared" || backend == "memory" || backend == "hybrid-mem" || backend == "hybrid-shared-mem" || backend == "hybrid-persist"
 }
 
 func newWorld(backend string, nodes int, ttl time.Duration, withSessions bool) *world {
@@ -232,8 +234,9 @@ func newWorld(backend string, nodes int, ttl time.Duration, withSessions bool) *
 	var sharedMem *memory.Storage
 	var sharedHybrid *hybrid.Storage
 	switch backend {
-	case "memory", "hybrid-shared-mem", "hybrid-persist":
+	case "memory", "hybrid-shared-mem", "hybrid-persist", "hybrid-gated-shared":
 		sharedMem = memory.New(ctx)
+		w.shared = sharedMem
 	case "hybrid-mem":
 		// the single-node default: hybrid storage whose "shared" keys fall back to the local memory cache
 		sharedHybrid = hybrid.New(ctx, memory.New(ctx), nil, nil)
@@ -255,7 +258,7 @@ func newWorld(backend string, nodes int, ttl time.Duration, withSessions bool) *
 			cfg := hybrid.DefaultConfig()
 			cfg.EnablePersistent = true
 			w.st[n] = hybrid.NewWithSharedCache(ctx, memory.New(ctx), sharedMem, stypes.NewNullPersistentStorage(), cfg)
-		case "hybrid-shared-mem":
+		case "hybrid-shared-mem", "hybrid-gated-shared":
 			// tiered storage per node: a private local cache and ONE shared cache (an in-memory one here)
 			w.st[n] = hybrid.NewWithSharedCache(ctx, memory.New(ctx), sharedMem, nil, nil)
 		case "redis":
@@ -814,7 +817,7 @@ func runCase(raw json.RawMessage) interface{} {
 			if w.mr != nil {
 				w.mr.FastForward(time.Duration(d) * time.Millisecond)
 			}
-			if wait := time.Duration(now)*time.Millisecond - time.Since(t0); wait > 0 {
+			if wait := time.Duration(now)*time.Millisecond - time.Since(t0); wait > 0 && !(c.Virtual && w.mr != nil) {
 				time.Sleep(wait)
 			}
 		} else {
@@ -1109,7 +1112,7 @@ func main() {
 		return
 	}
 	variant = probeVariant()
-	for _, be := range []string{"memory", "redis", "hybrid-redis", "hybrid-shared-mem", "hybrid-mem", "hybrid-persist"} {
+	for _, be := range []string{"memory", "redis", "hybrid-redis", "hybrid-shared-mem", "hybrid-mem", "hybrid-persist", "hybrid-gated-shared"} {
 		casByBackend[be] = probeCAS(be)
 		scasByBackend[be] = probeStateCAS(be)
 	}
